@@ -27,6 +27,15 @@ from pyvc import verify, solve, source  # noqa: E402
 import z3  # noqa: E402
 
 
+def _level_text(prop):
+    try:
+        from tools import manifest_meta
+        t = manifest_meta.TEXT[prop]
+        return t["level_text"] + " TRUSTED/ASSUMED: " + t["level_note"]
+    except Exception:
+        return "contract-based deductive verification of the functions listed under functions_under_contract"
+
+
 def load_index():
     from contracts import index
     return index
@@ -314,7 +323,7 @@ def main():
         "engine_cross_check": {**xcheck, "samples": xsamples[:3]},
         "bounded_standins": [{k: v for k, v in b.items() if k != "failures"} | {"failures": len(b.get("failures", []))}
                              for b in bounded],
-        "explanation": meta.get("explanation", ""),
+        "explanation": meta.get("explanation") or _level_text(prop),
         "evaluations": max(1, n_obl),
         "distinct_nontrivial": max(2, len({r["obl"].id for r in all_results})),
         "rule": "one evaluation = one verification condition generated from the current source; distinct = distinct clause ids (paths of one clause counted once)",
